@@ -62,6 +62,25 @@ func mergeSchedSummary(r *engine.Run, prop string) {
 	for _, g := range s.Guards {
 		r.HarnessError("vacuity guard failed in the schedule explorer: %s", g)
 	}
+	// auxiliary free-running -race pass (thorough tier only)
+	if rc := os.Getenv("VERIF_AUX_RACE_RC"); rc != "" {
+		logb, _ := ioutil.ReadFile(os.Getenv("VERIF_AUX_RACE_LOG"))
+		switch rc {
+		case "0":
+			s.AuxRace = "pass (400 free-running iterations of the harness bodies under the Go race detector)"
+		case "66":
+			s.AuxRace = "race reported"
+			excerpt := string(logb)
+			if len(excerpt) > 3000 {
+				excerpt = excerpt[:3000]
+			}
+			r.Part("aux-race", 1, func(c *engine.Case) {
+				c.Fail("aux-race/go-race-detector", "the Go race detector reports a data race in a free-running pass of the harness bodies: "+excerpt, nil)
+			})
+		default:
+			s.AuxRace = "not conclusive (exit " + rc + ")"
+		}
+	}
 	r.AddStates(s.Schedules, s.Points, s.Points)
 	r.Extra("schedule_exploration", map[string]interface{}{"scenarios": s.Scenarios, "schedules": s.Schedules, "scheduling_points_executed": s.Points, "overlay_report": s.Overlay, "aux_race_pass": s.AuxRace})
 	for _, f := range s.Findings {
